@@ -413,7 +413,14 @@ func (c *specCtx) pkgObject(obj types.Object) *SVal {
 		if c.pure {
 			c.fail("package variable %s in pure ghost function", o.Name())
 		}
-		return &SVal{T: c.e.Heap(c.st, "global:"+o.Pkg().Path()+"."+o.Name(), c.e.sortOf(o.Type())), Ty: o.Type()}
+		key := "global:" + o.Pkg().Path() + "." + o.Name()
+		if c.fr != nil && c.fr.top != nil && c.fr.top.entry != nil && c.st != nil {
+			// a package variable held a well-typed value (nil or an object allocated then) when the function was entered
+			ent := c.fr.top.entry
+			v0 := c.e.Heap(ent, key, c.e.sortOf(o.Type()))
+			c.st.Assume(c.e.typeFacts(v0, o.Type(), ent))
+		}
+		return &SVal{T: c.e.Heap(c.st, key, c.e.sortOf(o.Type())), Ty: o.Type()}
 	}
 	return nil
 }
